@@ -10,22 +10,26 @@
 (***************************************************************************)
 EXTENDS Integers, Sequences, FiniteSets, TLC, Json, SequencesExt
 
-Ops == {"tell", "ask", "kill", "pkill", "watch", "watch-both", "unwatch", "ping", "pipe-ok", "pipe-fail", "sched-once"}
+\* ("pipe-fail": the asked actor never answers, the failure is a time-out; "pipe-fail-plain": it answers with an error value
+\*  that is not one of the library's own errors)
+Ops == {"tell", "ask", "kill", "pkill", "watch", "watch-both", "unwatch", "ping", "pipe-ok", "pipe-fail", "pipe-fail-plain", "sched-once"}
 Locs == {"local", "remote"}
 Flavours == {"registered", "codec"}       \* a message type registered with the wire registry / one only the user Codec knows
 
 \* which operations carry a user message (the flavour dimension applies to them only)
 Carries(op) == op \in {"tell", "ask", "pipe-ok", "sched-once"}
 \* which operations have a second reference parameter (forwarders)
-HasFwd(op) == op \in {"pipe-ok", "pipe-fail"}
+HasFwd(op) == op \in {"pipe-ok", "pipe-fail", "pipe-fail-plain"}
 
 \* history of the target's path: "fresh" = first actor ever under that path; "recreated" = an earlier actor under
 \* the same path received a message from the operator, terminated, and a new actor was spawned under the same name
-Hists == {"fresh", "recreated"}
+\* "after-failed-encode" = just before the operation the operator sent another system a message whose encoding fails
+Hists == {"fresh", "recreated", "after-failed-encode"}
 Cases == {c \in [op : Ops, target : Locs, fwd : Locs \cup {"-"}, flavour : Flavours \cup {"-"}, hist : Hists] :
             /\ (HasFwd(c.op) <=> c.fwd # "-")
             /\ (Carries(c.op) <=> c.flavour # "-")
-            /\ (c.hist = "recreated" => c.op \in {"tell", "ask", "kill", "ping"} /\ c.flavour \in {"registered", "-"})}
+            /\ (c.hist = "recreated" => c.op \in {"tell", "ask", "kill", "ping"} /\ c.flavour \in {"registered", "-"})
+            /\ (c.hist = "after-failed-encode" => c.op \in {"tell", "ask", "kill", "ping", "watch"} /\ c.flavour \in {"registered", "-"})}
 
 \* the observable effect, the same wherever the references point
 Expected(c) ==
@@ -37,7 +41,7 @@ Expected(c) ==
       [] c.op = "unwatch" -> "not-notified"
       [] c.op = "ping" -> "pong"
       [] c.op = "pipe-ok" -> "forwarded-message"
-      [] c.op = "pipe-fail" -> "forwarded-error"
+      [] c.op \in {"pipe-fail", "pipe-fail-plain"} -> "forwarded-error"
       [] c.op = "sched-once" -> "received"
 
 VARIABLE x
